@@ -4,14 +4,25 @@ Values come from parsing arbitrary bytes and from direct construction (defaults 
 values).  Predicates on the real code: T(dumps(v)) == v, consumed == len(dumps(v)); out-of-range integers are rejected.
 The Lean model's write/read are compared with the real dumps/parse on the same values (correspondence for the theorem
 `roundtrip_S` and its companions).
+
+Added probe families (s1):
+  * endianness histories: ONE cstruct instance lives through epochs (parse/dump, `cs.endian` switched, parse/dump again,
+    both orders, sometimes back); in every epoch the round-trip predicate is evaluated on values parsed in that epoch and on
+    values carried over from the previous epoch (dumped under the new byte order); the same for standalone scalar, enum and
+    array types (s1_hist.endian_history / scalar_history).
+  * mixed alignment modes: the definition is split into named definitions loaded by separate cs.load calls with their own
+    `align` flag (defs.hoist), so aligned structures with tail padding sit inside packed ones at offsets that are not
+    multiples of their alignment, followed by more data, and vice versa; the round-trip predicate is evaluated on the real
+    code (s1_mixed).  Inputs on which an aligned structure's tail alignment runs past its declared size are a pending
+    finding (see PENDING-FINDING below) and are not evaluated.
 """
 from __future__ import annotations
 
 import itertools
 
-from .. import defs, impl, refimpl
+from .. import defs, impl, refimpl, s1_hist, s1_mixed
 from ..common import Result, mkrng
-from ..structprops import Engine, load, real_parse, small_unit_bits, rand_bytes, has_eof, has_union, union_dump_incomplete
+from ..structprops import Engine, load, real_parse, small_unit_bits, rand_bytes, has_eof, has_union, union_dump_incomplete, union_anon_nested
 
 
 def int_leaves(tree, T, path=()):
@@ -41,12 +52,199 @@ def set_path(obj, path, v):
     setattr(obj, path[-1], v)
 
 
+def pending(res, tree) -> bool:
+    """definitions in the territory of a pending finding are not evaluated"""
+    if union_anon_nested(tree):
+        if False:  # PENDING-FINDING: union of anonymous structures with a nested anonymous member loses that member's fields on dump
+            return False  # (see structprops.union_anon_nested for the reproduction)
+        res.feat("skipped definition (pending finding: nested anonymous member in an all-anonymous union)")
+        return True
+    return False
+
+
+MIXED_MODEL = True
+
+
+def check_roundtrip(eng, res, L, tree, data, sigs, *, key, model=True, extra=None):
+    """the property's predicate on one value, the value being what parsing `data` returns: dumps must succeed, parsing
+    dumps(v) (followed by foreign bytes) must return v and consume exactly len(dumps(v)).  -> the parsed object or None"""
+    T = L.T
+    want, obj = real_parse(T, data)
+    if want[0] != "ok":
+        res.feat("input-rejected:" + want[1])
+        return None
+    if impl.contains_nan(want[1]):
+        res.feat("skipped:NaN")
+        return None
+    if extra is not None and not extra(obj):
+        return None
+    nontrivial = (len(tree[1]) >= 2 or tree[1][0]["ty"][0] in ("arr", "struct", "union")) and want[2] >= 2
+    res.count((*key, data[: want[2]]), nontrivial)
+    cd = eng.case_data(L, data=data)
+    d = impl.dump(T, obj)
+    if d[0] != "ok":
+        eng.report(f"a parsed value cannot be dumped: {d[1]}", cd, sigs)
+        return obj
+    back, obj2 = real_parse(T, d[1] + (b"" if has_eof(tree) else b"\xEE\xEE"))
+    if back[0] != "ok":
+        eng.report(f"dumps(v) cannot be parsed back: {back[1]}", cd, sigs)
+        return obj
+    if not impl.same_val(want[1], back[1], ignore_union_buf=True) or obj2 != obj or back[2] != len(d[1]):
+        eng.report(f"parse(dumps(v)) = {str(back[1])[:250]} consuming {back[2]} of {len(d[1])}; v = {str(want[1])[:250]}", cd, sigs)
+    if model and "F23" not in sigs:
+        eng.model_write(L, want[1], d, "dumps of a parsed value", sigs)
+        eng.model_read(L, d[1] + b"\xEE\xEE", 0, back if not has_eof(tree) else real_parse(T, d[1] + b"\xEE\xEE")[0], "parse of dumps", sigs)
+    return obj
+
+
+def check_carried(eng, res, L, tree, obj, sigs, *, key):
+    """the predicate on a value that exists already (parsed before a configuration change): dump it now, parse it back"""
+    T = L.T
+    v = impl.canon(obj)
+    res.count((*key, "carried", repr(v)), True)
+    cd = eng.case_data(L, value=str(v)[:400])
+    d = impl.dump(T, obj)
+    if d[0] != "ok":
+        eng.report(f"a value parsed before the configuration change cannot be dumped after it: {d[1]}", cd, sigs)
+        return
+    back, obj2 = real_parse(T, d[1] + (b"" if has_eof(tree) else b"\xEE\xEE"))
+    if back[0] != "ok":
+        eng.report(f"dumps(v) of a carried-over value cannot be parsed back: {back[1]}", cd, sigs)
+    elif not impl.same_val(v, back[1], ignore_union_buf=True) or obj2 != obj or back[2] != len(d[1]):
+        eng.report(f"carried-over value: parse(dumps(v)) = {str(back[1])[:250]} consuming {back[2]} of {len(d[1])}; v = {str(v)[:250]}", cd, sigs)
+    elif "F23" not in sigs:
+        eng.model_write(L, v, d, "dumps of a carried-over value", sigs)
+
+
+def endian_histories(eng, res, rnd, tier):
+    """endianness histories on one instance: structures, then standalone scalar / enum / array types"""
+    for _ in range(150 if tier == "quick" else 4000):
+        tree = defs.Gen(rnd, max_depth=rnd.choice([1, 2, 2, 3])).struct()
+        if pending(res, tree):
+            continue
+        align, compiled = rnd.random() < 0.5, rnd.random() < 0.5
+        ptr = rnd.choice(["uint64", "uint32", "uint16", "uint8"])
+        sigs = None
+
+        def prep(L):
+            nonlocal sigs
+            if sigs is None:
+                sigs = eng.sigs(L)
+
+        def on_parse(L, data, i):
+            prep(L)
+            res.feat("history:endian:parse-dump" + (":after-switch" if i else ":first-epoch"))
+            return check_roundtrip(eng, res, L, tree, data, sigs, key=("hist", L.text, L.endian, i, align, compiled, ptr), model=i > 0)
+
+        def on_carried(L, obj, i):
+            prep(L)
+            res.feat("history:endian:carried-value")
+            check_carried(eng, res, L, tree, obj, sigs, key=("hist", L.text, L.endian, i, align, compiled, ptr))
+
+        sess = s1_hist.endian_history(rnd, tree, align=align, compiled=compiled, ptr=ptr, on_parse=on_parse,
+                                      on_carried=None if has_union(tree) else on_carried)
+        if sess is not None:
+            res.feat("history:endian:instances")
+        if len(eng.lines) > 4000:
+            eng.flush()
+
+    def on_value(sess, t, text, data, i, e):
+        r = impl.parse(t, data)
+        if r[0] != "ok":
+            res.feat("input-rejected:" + r[1])
+            return
+        v = impl.canon(r[1])
+        if impl.contains_nan(v):
+            return
+        res.count(("hist-scalar", text, e, i, data[: r[2]]), r[2] >= 2)
+        res.feat("history:endian:standalone-type" + (":after-switch" if i else ":first-epoch"))
+        cd = {"history": list(sess.steps), "type": text, "data": data.hex(), "endian": e,
+              "repro": sess.script([f"t = {text}; v = t(bytes.fromhex({data.hex()!r})); d = t.dumps(v); assert t(d) == v"])}
+        sess.note(f"t = {text}; t.dumps(t(bytes.fromhex({data.hex()!r})))   # under cs.endian = {e!r}")
+        d = impl.dump(t, r[1])
+        if d[0] != "ok":
+            eng.report(f"a parsed {text} value cannot be dumped: {d[1]}", cd, [])
+            return
+        back = impl.parse(t, d[1] + b"\xEE\xEE")
+        if back[0] != "ok" or not impl.same_val(v, impl.canon(back[1])) or back[1] != r[1] or back[2] != len(d[1]):
+            eng.report(f"{text}: parse(dumps(v)) = {back[1] if back[0] == 'ok' else back} consuming {back[2] if back[0] == 'ok' else '-'} of "
+                       f"{len(d[1])}; v = {r[1]!r}, dumps(v) = {d[1].hex()}", cd, [])
+
+    for _ in range(25 if tier == "quick" else 600):
+        s1_hist.scalar_history(rnd, on_value=on_value)
+
+
+def mixed_alignment(eng, res, rnd, tier):
+    """mixed alignment modes: named sub-definitions loaded with their own `align` flag on one instance"""
+    for _ in range(320 if tier == "quick" else 8000):
+        g = defs.Gen(rnd, max_depth=rnd.choice([1, 2, 2, 3]))
+        tree = s1_mixed.with_nested(rnd, g, g.struct())
+        if pending(res, tree):
+            continue
+        endian, compiled = rnd.choice("<>"), rnd.random() < 0.5
+        ptr = rnd.choice(["uint64", "uint32", "uint16", "uint8"])
+        for _try in range(4):
+            plan, tree2 = defs.hoist(tree, rnd, p=0.7, top_align=rnd.random() < 0.5, mixed=True)
+            if s1_mixed.is_mixed(plan):
+                break
+        if not s1_mixed.is_mixed(plan):
+            res.feat("mixed-align:plan-uniform (not run)")
+            continue
+        sess = impl.Session(endian=endian, pointer=ptr)
+        try:
+            L = s1_mixed.load_plan(sess, plan, compiled=compiled)
+        except Exception as e:  # noqa: BLE001
+            res.feat("mixed-align:definition-rejected:" + type(e).__name__)
+            continue
+        T = L.T
+        mis = s1_mixed.misplaced_aligned(T)
+        res.feat("mixed-align:instances")
+        res.feat("mixed-align:" + ("aligned-in-packed at a misaligned or dynamic offset" if mis else "every aligned structure at an aligned offset"))
+        if any(under_union or s1_mixed.has_bitfields(t) for t, under_union in mis):
+            if False:  # PENDING-FINDING (same root cause as the one below)
+                # Inside a structure defined with align=True that sits at a position that is not a multiple of its alignment,
+                # (a) the writer pads before a bit-field unit of enum type by absolute stream position, the reader does not:
+                #   cs.load('enum E : uint16 { A = 1 }; struct N1 { uint8 x; E f5 : 6; E f6 : 10; };', align=True)
+                #   cs.load('struct T { uint8 p; N1 n; };'); cs.T(bytes(range(1, 31))).dumps() == 01 02 00 00 04 05 (unit moved)
+                # (b) a union reads its members from a sub-buffer (position 0) but writes them at the real stream position:
+                #   cs.load('struct N1 { uint16 a; uint64 b; };', align=True)
+                #   cs.load('union U { N1 n; uint8 raw[16]; }; struct T { uint16 p; U u; uint16 q; };')  -> dumps 26 bytes, not 20
+                pass
+            else:
+                res.feat("mixed-align:skipped (misplaced aligned structure with bit-fields or inside a union: pending finding)")
+                continue
+        sigs = s1_mixed.sigs_any_mode(tree, ptr, endian)
+        top_align = plan[-1][2]
+        L.ty_sexp = lambda tree2=tree2, T=T, top_align=top_align: s1_mixed.mixed_ty_sexp(tree2, T, top_align)  # per-node align flags
+
+        def no_overshoot(obj):
+            if s1_mixed.overshoot(obj):
+                if False:  # PENDING-FINDING
+                    # An aligned structure S (align=True) nested in a packed one at an offset that is not a multiple of
+                    # S.alignment, with less tail padding than the misalignment: reader and writer align S's tail by the
+                    # ABSOLUTE stream position and run past S's declared end; the writer then puts the following member
+                    # later than the offset where the reader looks for it, so parse(dumps(v)) != v.  Minimal case:
+                    #   cs.load('struct N1 { uint16 a; uint64 b; };', align=True); cs.load('struct T { uint16 p; N1 n; uint16 q; };')
+                    #   v = cs.T(bytes(range(1, 31))); len(v.dumps()) == 26 != 20; cs.T(v.dumps()).q == 0 != v.q
+                    return True
+                res.feat("mixed-align:skipped input (tail alignment past the declared size: pending finding)")
+                return False
+            return True
+
+        size = T.size if T.size is not None else 48
+        for data in [rand_bytes(rnd, size + rnd.choice([0, 5, 20])) for _ in range(3)]:
+            if check_roundtrip(eng, res, L, tree2, data, sigs, key=("mixed", sess.script(), compiled), model=MIXED_MODEL, extra=no_overshoot) is not None:
+                res.feat("mixed-align:values")
+
+
 def run(env) -> Result:
     res = Result()
     res.rule = ("seeded random definition trees (all scalar table types and aliases, enums/flags, pointers, fixed/expression/null-terminated/EOF "
                 "arrays, nested and anonymous structs, unions, bit-fields, void) x {<,>} x {packed, aligned} x {interpreted, compiled} x pointer "
                 "width; values: parsed from random bytes (3 buffers) and constructed (every integer-like leaf set to min, max, min-1, max+1). "
-                "Predicates: parse(dumps(v)) == v with exact consumption; out-of-range integers raise. distinct = (definition, config, value "
+                "Predicates: parse(dumps(v)) == v with exact consumption; out-of-range integers raise. Plus histories on one instance (parse/"
+                "dump, cs.endian switched, parse/dump, values carried across the switch; structures and standalone types) and mixed "
+                "alignment modes (sub-definitions loaded with their own align flag). distinct = (definition, config, value "
                 "bytes); non-trivial = >= 2 fields or a composite field and >= 2 bytes")
     eng = Engine(env, res, "C01")
     rnd = mkrng(env["seed"], "c01")
@@ -54,6 +252,8 @@ def run(env) -> Result:
     n = 260 if tier == "quick" else 12000
     for _ in range(n):
         tree = defs.Gen(rnd, max_depth=rnd.choice([1, 2, 2, 3])).struct()
+        if pending(res, tree):
+            continue
         for endian, align, compiled in itertools.product("<>", (False, True), (False, True)):
             if rnd.random() < (0.6 if tier == "quick" else 0.3):
                 continue
@@ -68,29 +268,7 @@ def run(env) -> Result:
                 res.feat(k, v)
             size = T.size if T.size is not None else 48
             for data in [rand_bytes(rnd, size + rnd.choice([0, 5, 20])) for _ in range(3)]:
-                want, obj = real_parse(T, data)
-                if want[0] != "ok":
-                    res.feat("input-rejected:" + want[1])
-                    continue
-                if impl.contains_nan(want[1]):
-                    res.feat("skipped:NaN")
-                    continue
-                nontrivial = (len(tree[1]) >= 2 or tree[1][0]["ty"][0] in ("arr", "struct", "union")) and want[2] >= 2
-                res.count((L.text, endian, align, compiled, ptr, data[: want[2]]), nontrivial)
-                cd = eng.case_data(L, data=data)
-                d = impl.dump(T, obj)
-                if d[0] != "ok":
-                    eng.report(f"a parsed value cannot be dumped: {d[1]}", cd, sigs)
-                    continue
-                back, obj2 = real_parse(T, d[1] + (b"" if has_eof(tree) else b"\xEE\xEE"))
-                if back[0] != "ok":
-                    eng.report(f"dumps(v) cannot be parsed back: {back[1]}", cd, sigs)
-                    continue
-                if not impl.same_val(want[1], back[1], ignore_union_buf=True) or obj2 != obj or back[2] != len(d[1]):
-                    eng.report(f"parse(dumps(v)) = {str(back[1])[:250]} consuming {back[2]} of {len(d[1])}; v = {str(want[1])[:250]}", cd, sigs)
-                if "F23" not in sigs:
-                    eng.model_write(L, want[1], d, "dumps of a parsed value", sigs)
-                    eng.model_read(L, d[1] + b"\xEE\xEE", 0, back if not has_eof(tree) else real_parse(T, d[1] + b"\xEE\xEE")[0], "parse of dumps", sigs)
+                check_roundtrip(eng, res, L, tree, data, sigs, key=(L.text, endian, align, compiled, ptr))
             # constructed values: boundary integers in every integer-like leaf; out-of-range values must be refused
             if has_union(tree) or T.size is None:
                 continue
@@ -138,6 +316,8 @@ def run(env) -> Result:
                         eng.report(f"bit-field {'.'.join(path)} = {v} does not fit {kind[1]} bits but was written as {d[1].hex()}", cd, sigs + ["F29"])
         if len(eng.lines) > 4000:
             eng.flush()
+    endian_histories(eng, res, mkrng(env["seed"], "c01-endian-history"), tier)
+    mixed_alignment(eng, res, mkrng(env["seed"], "c01-mixed-align"), tier)
     eng.flush()
     return res
 
